@@ -175,6 +175,31 @@ class Session:
         self.d = None            # feature count of the current fit epoch
         self.n_rows = 0          # stored rows (neighbourhood policies)
         self.has_binarizer = bool(self.cfg["lp"][0] == "ThompsonSampling" and self.cfg["lp"][1].get("binarizer"))
+        self._pool = {}          # container "ndarray_reuse": the caller's buffers, by (role, shape, dtype)
+
+    def _reuse(self, role, obj):
+        """F-CALLER (buffer reuse): a caller that keeps ONE container per role and overwrites it in place with the data of
+        the next call, as pre-allocating callers do. The same OBJECT therefore arrives with other contents."""
+        if isinstance(obj, np.ndarray):
+            key = (role, "nd", obj.shape, obj.dtype.str, obj.flags["C_CONTIGUOUS"])
+        elif isinstance(obj, list):
+            key = (role, "list", len(obj))
+        elif isinstance(obj, pd.DataFrame):
+            key = (role, "df", obj.shape, str(obj.values.dtype))
+        else:
+            return obj
+        buf = self._pool.get(key)
+        if buf is None:
+            self._pool[key] = obj
+            return obj
+        if isinstance(obj, np.ndarray):
+            np.copyto(buf, obj)
+        elif isinstance(obj, list):
+            buf[:] = obj
+        else:
+            buf.iloc[:, :] = obj.values
+        kernel.cur().fired("fault.caller_reuses_buffer")
+        return buf
 
     # ---- copies / restarts (F-RESTART)
     def clone(self, how="deepcopy"):
@@ -242,9 +267,13 @@ class Session:
             rows = self.valid_rows(op["rows"])
             if not self.can_train(kind, rows):
                 return ("skip", None)
+            reuse = container.startswith("reuse:")
+            container = container[6:] if reuse else container
             dec = _vec([r[0] for r in rows], container, False)
             rew = _vec([r[1] for r in rows], container, True)
             X = _mat([r[2] for r in rows], container) if self.ctxl else None
+            if reuse:
+                dec, rew, X = self._reuse("dec", dec), self._reuse("rew", rew), self._reuse("X", X)
             fn = mab.fit if kind == "fit" else mab.partial_fit
             objs = [dec, rew, X]
             call = (lambda: fn(dec, rew, X)) if self.ctxl else (lambda: fn(dec, rew))
@@ -264,7 +293,11 @@ class Session:
                     return ("skip", None)
             if not self.fitted:
                 return ("skip", None)
+            reuse = container.startswith("reuse:")
+            container = container[6:] if reuse else container
             Xq = _mat(Q, container)
+            if reuse:
+                Xq = self._reuse("Q", Xq)
             objs = [Xq]
             fn = mab.predict if kind == "predict" else mab.predict_expectations
             call = (lambda: fn(Xq)) if Q is not None else (lambda: fn())
